@@ -168,6 +168,24 @@ func parseCaretConstraint(version string) ([]*constraint, error) {
 		return []*constraint{{operator: "=", version: v}}, nil
 	}
 
+	// A partial all-zero base leaves the unwritten components free:
+	// ^0 means >=0.0.0 <1.0.0 and ^0.0 means >=0.0.0 <0.1.0
+	if v.major == 0 && v.minor == 0 && v.patch == 0 && v.stability == stabilityStable &&
+		!strings.ContainsAny(version, "-+") && strings.Count(version, ".") < 2 {
+		upperVersionStr := "1.0.0"
+		if strings.Count(version, ".") == 1 {
+			upperVersionStr = "0.1.0"
+		}
+		upperVersion, err := e.NewVersion(upperVersionStr)
+		if err != nil {
+			return nil, err
+		}
+		return []*constraint{
+			{operator: ">=", version: v},
+			{operator: "<", version: upperVersion},
+		}, nil
+	}
+
 	// ^1.2.3 means >=1.2.3 <2.0.0, but also includes prerelease versions of the same major.minor.patch
 	// ^0.3 means >=0.3.0 <0.4.0
 	// ^0.0.3 means >=0.0.3 <0.0.4
